@@ -2,6 +2,7 @@ import H264.SliceC06
 import H264.SliceExact
 import H264.SliceConverse
 import H264.History
+import H264.Tables2
 /-! # C06 — Slice header parsing follows H.264 7.3.3 and stops exactly at slice data
 
 Model: `Slice.parseSliceHeader ctx hdr` mirrors `SliceHeader::from_bits(ctx, reader, nal_header)`.
@@ -63,5 +64,12 @@ theorem accepted_reencodes_in_reachable_context (ops : List History.Op) (hdr : N
         parseSliceHeader (History.sctx (History.run ops)) hdr ⟨encSliceHeader sps pps hdr h x ++ d :: (data ++ trailing z), .eof⟩
           = .ok ((h, sid, pid), ⟨d :: (data ++ trailing z), .eof⟩) :=
   C06_reencode _ hdr s s' h sid pid hok (fun p hp => ((History.reachable_inv ops).2 pid p hp).1)
+
+/-- Table 7-6 in the running code (graph extracted through `SliceHeader::from_bits` on every run): slice_type 0…9 are
+accepted and 10…63 refused; the family is the model's `familyOf` and 5…9 are the exclusive variants -/
+theorem code_slice_type_table : Generated.sliceType.length = 64 ∧
+    ∀ t : Fin 64, Generated.sliceType.getD t.val (9,9,9) =
+      (if t.val ≤ 9 then (1, Tables2.famIdx (Slice.familyOf t.val), if t.val ≥ 5 then 1 else 0) else (0, 0, 0)) :=
+  Tables2.sliceType_table
 
 end C06
